@@ -32,7 +32,7 @@ struct RunResult {
 
 struct Scenario {
   Sim s; std::vector<Action> actions; std::string prop;
-  std::vector<std::pair<int, std::string>> inject_log; std::map<int, int64_t> last_cookieless;
+  std::vector<std::pair<int, std::string>> inject_log; std::map<int, int64_t> last_cookieless; std::vector<std::pair<int64_t, int>> src_changes;
   bool has_faults = false, has_reconfig = false, has_cancel = false, has_inject = false;
   size_t nlines = 0;
 
@@ -134,7 +134,8 @@ struct Scenario {
         auto norm = [](const std::vector<std::string> &v) { std::set<std::string> o; for (auto &x : v) { Addr ad; if (Addr::parse(x, ad)) o.insert(ad.str()); } return o; };
         bool changed = norm(S.server_specs) != norm(a.a);
         S.server_specs = a.a; S.apply_servers(S.server_specs); if (changed) { S.reconfig_times.push_back(S.w.now_us); S.reconfig_ticks.push_back(++S.tick); } }
-      else if (a.op == "srcaddr" && a.a.size() >= 2) { size_t i = (size_t)atoi(a.a[0].c_str()); Addr x; if (i < S.w.servers.size() && Addr::parse(a.a[1], x)) S.w.servers[i].source = x; }
+      else if (a.op == "cookiemode" && a.a.size() >= 2) { size_t i = (size_t)atoi(a.a[0].c_str()); if (i < S.w.servers.size()) S.w.servers[i].cookie_mode = a.a[1]; }
+      else if (a.op == "srcaddr" && a.a.size() >= 2) { size_t i = (size_t)atoi(a.a[0].c_str()); Addr x; if (i < S.w.servers.size() && Addr::parse(a.a[1], x)) { S.w.servers[i].source = x; src_changes.push_back({S.w.now_us, (int)i}); } }
       else if (a.op == "check" && !a.a.empty() && a.a[0] == "timeout") { if (S.ch) S.check_timeout_api(); }
     }
   }
@@ -423,6 +424,81 @@ struct Scenario {
     if (prop == "C09" && after_failure > 0) r.nontrivial = true;
   }
 
+  // ---- C17: DNS cookies (RFC 7873 client behaviour, restricted to what the statement says)
+  void monitor_c17(RunResult &r) {
+    Sim &S = s; World &w = S.w;
+    if (has_faults || has_reconfig || has_cancel) return;
+    for (auto &t : w.txs) if (t.outcome == O_GARBAGE) { r.counters["c17.skipped_garbage_scenarios"]++; return; }   // a malformed datagram makes the library drop the socket with everything read behind it unprocessed
+    std::map<uint32_t, const Prov *> bys; for (auto &p : w.provs) bys[p.serial] = &p;
+    // which replies did the library accept (a request completed with them), and when
+    std::map<uint32_t, int64_t> accepted; for (auto &kv : S.reqs) if (kv.second.calls == 1) for (uint32_t ser : kv.second.serials) accepted[ser] = kv.second.t_end;
+    std::map<uint32_t, int64_t> delivered_at; for (auto &d : w.delivered) if (d.serial && !delivered_at.count(d.serial)) delivered_at[d.serial] = d.t;
+    size_t nserv = w.servers.size(); size_t proofs = 0, timers = 0;
+    // Which replies the library actually processed is not modelled (probe copies, batching and re-sends on the same socket make that fragile).  Two sound bounds are used
+    // instead: "delivered" (read from the socket: an upper bound on what can have taught the client something) and "accepted" (a request completed with that very reply: a
+    // lower bound - its cookie was certainly validated and stored).  dev = position of the delivery in the event order.
+    std::map<uint32_t, uint64_t> dev; for (auto &d : w.delivered) if (d.serial && !dev.count(d.serial)) dev[d.serial] = d.ev;
+    auto surely = [&](const Prov &p) { return accepted.count(p.serial) && dev.count(p.serial) && p.genuine; };
+    for (size_t sv = 0; sv < nserv; sv++) {
+      Bytes cur_client; int64_t client_since = 0; Addr cur_src; bool have = false; int64_t last_cause = -1;
+      for (auto &t : w.txs) { if (t.server != (int)sv || !t.decodable) continue;
+        if (t.tcp) { if (t.has_cookie) fail(r, "C17.cookie-sent-over-tcp", "request " + std::to_string(t.req) + " transmission #" + std::to_string(t.seq) + " to server " + std::to_string(sv) + " over TCP carries a COOKIE option"); continue; }
+        if (!t.edns || !t.has_cookie) continue;
+        if (t.cookie.size() < 8 || (t.cookie.size() > 8 && (t.cookie.size() < 16 || t.cookie.size() > 40))) { fail(r, "C17.malformed-cookie-sent", "cookie option of " + std::to_string(t.cookie.size()) + " bytes"); continue; }
+        Bytes client = t.cookie.substr(0, 8), server = t.cookie.substr(8);
+        // source address this socket reports
+        Addr src; for (auto &k : w.socks) if (k.fd == t.fd) src = k.local; src.port = 0;
+        if (have && client != cur_client) {
+          // allowed causes: source address change, one day of age, or a reset after the regression / unsupported period: a cookie-less
+          // or invalid reply from this server at least 120 s ago
+          bool cause = !(src == cur_src) || t.t - client_since >= 86400LL * 1000000;
+          // (the library drops its cookie state as soon as a reply shows the server not supporting cookies, and re-learns later; so any such reply
+          //  since this client cookie came into use is accepted as a cause - the check is that it is constant while every reply carried a valid cookie)
+          for (auto &p : w.provs) if (p.server == (int)sv && delivered_at.count(p.serial) && delivered_at[p.serial] <= t.t && delivered_at[p.serial] >= client_since && (!p.carried_server_cookie || !p.cookie_valid)) cause = true;
+          // ... or the regression timer started by an earlier cookie-less reply has run out (no valid cookie reply processed in between to cancel it)
+          for (auto &p : w.provs) if (!cause && p.server == (int)sv && delivered_at.count(p.serial) && t.t - delivered_at[p.serial] >= 120LL * 1000000 && (!p.carried_server_cookie || !p.cookie_valid)) { bool cancelled = false; for (auto &p2 : w.provs) if (p2.server == (int)sv && p2.carried_server_cookie && p2.cookie_valid && surely(p2) && dev[p2.serial] > dev[p.serial] && dev[p2.serial] < t.ev) cancelled = true; if (!cancelled) cause = true; }
+          if (!cause) fail(r, "C17.client-cookie-changed-without-cause", "server " + std::to_string(sv) + ": client cookie " + vf::hex(cur_client) + " (in use for " + std::to_string((t.t - client_since) / 1000000) + "s) replaced by " + vf::hex(client) + " at transmission #" + std::to_string(t.seq) + " with the same source address");
+          else timers++;
+        }
+        if (!have || client != cur_client) { cur_client = client; client_since = t.t; }
+        cur_src = src; have = true;
+        // server part echoed = the latest server cookie accepted for this client cookie
+        if (!server.empty()) {
+          // some delivered reply for this client cookie must have carried it ...
+          bool seen = false; const Prov *latest = nullptr; uint64_t le = 0;
+          for (auto &p : w.provs) if (p.server == (int)sv && p.carried_server_cookie && p.client_cookie_echoed == client && dev.count(p.serial) && dev[p.serial] < t.ev) { if (p.server_cookie_sent == server) seen = true; if (p.cookie_valid && surely(p) && dev[p.serial] >= le) { latest = &p; le = dev[p.serial]; } }
+          if (!seen) fail(r, "C17.server-cookie-from-nowhere", "server " + std::to_string(sv) + " transmission #" + std::to_string(t.seq) + " echoes server cookie " + vf::hex(server) + " that no reply for this client cookie carried");
+          else if (latest && latest->server_cookie_sent != server) {
+            // ... and it must not be older than one the client certainly stored: stale only when every delivered reply carrying the echoed value came before a reply that was accepted
+            // with a different server cookie for the same client cookie
+            bool ok = false; for (auto &p : w.provs) if (p.server == (int)sv && p.carried_server_cookie && p.client_cookie_echoed == client && p.server_cookie_sent == server && dev.count(p.serial) && dev[p.serial] < t.ev && dev[p.serial] > le) ok = true;
+            if (!ok) fail(r, "C17.stale-server-cookie-echoed", "server " + std::to_string(sv) + " transmission #" + std::to_string(t.seq) + " echoes " + vf::hex(server) + ", the latest server cookie delivered before it is " + vf::hex(latest->server_cookie_sent));
+          }
+          proofs++;
+        }
+      }
+      // BADCOOKIE: at most three UDP resends of one query, then TCP
+      // (a reply counts only if it was read while its transmission was still the query's latest one)
+      std::map<uint32_t, uint64_t> delivered_ev; for (auto &d : w.delivered) if (d.serial && !delivered_ev.count(d.serial)) delivered_ev[d.serial] = d.ev;
+      std::map<uint16_t, size_t> bad; for (auto &t : w.txs) if (t.server == (int)sv && !t.tcp && t.outcome == O_BADCOOKIE && delivered_ev.count(t.serial)) { uint64_t next_ev = 0; for (auto &t2 : w.txs) if (t2.qid == t.qid && t2.req == t.req && t2.seq > t.seq) { next_ev = t2.ev; break; } if (next_ev && next_ev < delivered_ev[t.serial]) continue; if (++bad[t.qid] > 3) fail(r, "C17.more-than-three-badcookie-resends", "query id " + std::to_string(t.qid) + " got BADCOOKIE over UDP " + std::to_string(bad[t.qid]) + " times without falling back to TCP"); }
+      // a reply lacking a valid cookie is not accepted once support was proven, until the regression period (120 s) has passed
+      for (auto &a : accepted) { auto it = bys.find(a.first); if (it == bys.end()) continue; const Prov &p = *it->second; if (!p.genuine || p.server != (int)sv || p.tx == (size_t)-1) continue; const Tx &t = w.txs[p.tx]; if (t.tcp || !t.has_cookie) continue;
+        if (p.carried_server_cookie && p.cookie_valid) continue;
+        const Tx *last = nullptr; for (auto &t2 : w.txs) if (t2.req == t.req && t2.qid == t.qid && t2.t <= a.second) last = &t2; if (last && (!last->has_cookie || last->tcp)) continue;   // cookies no longer in play for this query
+        // was support proven before, and since when have cookie-less replies been arriving?
+        int64_t proven_at = -1; for (auto &b : accepted) { auto jt = bys.find(b.first); if (jt != bys.end() && jt->second->server == (int)sv && jt->second->carried_server_cookie && jt->second->cookie_valid && b.second < a.second && b.second > proven_at) proven_at = b.second; }
+        if (proven_at < 0) continue;
+        int64_t first_missing = -1; for (auto &p2 : w.provs) if (p2.server == (int)sv && (!p2.carried_server_cookie || !p2.cookie_valid) && delivered_at.count(p2.serial) && delivered_at[p2.serial] >= proven_at && (first_missing < 0 || delivered_at[p2.serial] < first_missing)) first_missing = delivered_at[p2.serial];
+        if (first_missing >= 0 && a.second - first_missing >= 120LL * 1000000) { timers++; continue; }
+        // a client-cookie rotation (source change, 1 day) also restarts learning
+        bool rotated = false; for (auto &sc : src_changes) if (sc.second == (int)sv && sc.first >= proven_at && sc.first <= a.second) rotated = true; if (a.second - proven_at >= 86400LL * 1000000) rotated = true; if (rotated) continue;
+        fail(r, "C17.reply-without-valid-cookie-accepted", "server " + std::to_string(sv) + " proved cookie support at t=" + std::to_string(proven_at / 1000000) + "s; a reply without a valid cookie was accepted at t=" + std::to_string(a.second / 1000000) + "s (request " + std::to_string(t.req) + ") only " + std::to_string(first_missing < 0 ? 0 : (a.second - first_missing) / 1000000) + "s after the first such reply");
+      }
+    }
+    r.counters["c17.server_cookie_echo_checks"] += proofs; r.counters["c17.timer_crossings"] += timers;
+    if (prop == "C17" && proofs > 0 && timers > 0) r.nontrivial = true;
+  }
+
   // ---- C08: soundness of cache hits (a miss is always allowed)
   void monitor_c08(RunResult &r) {
     Sim &S = s; World &w = S.w;
@@ -481,6 +557,7 @@ struct Scenario {
     if (prop == "C08" || prop == "C05") monitor_c08(r);
     if (prop == "C12" || prop == "C01") monitor_c12(r);
     if (prop == "C09") monitor_c09(r);
+    if (prop == "C17" || prop == "C05") monitor_c17(r);
     if (prop == "C13") monitor_c13(r);
     summarise(r);
     // non-triviality for C01 (DESIGN 5, C01)
